@@ -1,22 +1,285 @@
-"""C06 — block scoping, constants, inputs. Program stream (three-way); the symbol-table op stream is added by scope ops."""
-from props import progs
-from props.progs import replay  # noqa
+"""C06 — block scoping / constants, symbol-table level.
 
-RULE = ("programs over three names with shadowing in nested 如果/遍历 blocks, a method (declaring the same names) called from several "
-        "depths, 得到, 恒为, inputs, predefined names; 0–8 % deliberately invalid accesses (use after block end 42, redeclaration 43, "
-        "assignment to constants/inputs/得到 44, predefined names); everything visible is displayed at each block end. "
-        "Non-trivial = at least one nested block and one declaration inside it.")
-ASSUMPTIONS = []
-PARTIAL = ""
+Streams (every case is one history on a fresh object; one answer per operation, so a history also checks
+all of its prefixes):
+  scope-exhaustive  ALL histories of length L over {b, e, d:x, c:x, s:x, g:x | x in 2 names} on runtime.Scope
+  scope-random      random histories (3-4 names, nesting depth <= 6, mostly well bracketed, imports at the top)
+  scope-malformed   random histories with unmatched `e` (EndScope below depth 0) and imports inside blocks:
+                    Go vs model on everything; Go vs spec where the spec speaks (see spec_view)
+  vmscope           the same through the real VM wrappers with two predefined names (G, H), plus no-frame VMs
+The program-level stream (probe programs through `run`) is added by run_program_stream (hook below).
+"""
+import itertools
+
+RULE = ("scope-exhaustive: all 10^L histories (L=5 quick, 6 thorough; prefixes included through per-op answers) over "
+        "begin/end/declare/declare-const/assign/lookup on 2 names. scope-random / vmscope: random histories, length <= 30 "
+        "quick / <= 200 thorough, nesting depth <= 6, 3-4 names (vmscope: 2 locals + 2 predefined). scope-malformed: unmatched "
+        "ends and imports inside blocks. non-trivial = the history opens a block, declares successfully, and some lookup/"
+        "assignment answers a value or an error 42/43/44")
+ASSUMPTIONS = ["element values are opaque to the symbol table (harness uses small integers wrapped in value.Number)",
+               "balanced use: the spec is silent once an `end` has no open block (evaluator pairs every BeginScope with a deferred EndScope); "
+               "Go and model are still compared there",
+               "imports (DeclareExternalValue) happen at a module's top level (the parser admits 导入 only in the leading import block); "
+               "outside that, the module id reported by GetValueWithModuleID is compared Go-vs-model only (stale externalRefs entry, see report)"]
+PARTIAL = ("symbol-table core only in this module; evaluator-level half (programs: declare-error propagation, 输入/得到 constants, "
+           "blocks_balance) is a separate stream/theorem set")
+
+NAMES2 = ['a', 'b']
+
+
+def depth_walk(toks):
+    """(balanced, ext_at_root, maxdepth): balanced = no `e` at depth 0; ext_at_root = every x: at depth 0"""
+    d = 0
+    bal, ext, mx = True, True, 0
+    for t in toks:
+        if t == 'b':
+            d += 1
+            mx = max(mx, d)
+        elif t == 'e':
+            if d == 0:
+                bal = False
+                # keep walking with the model's reading (depth would be negative); ext judgement stops mattering
+                return bal, ext, mx
+            d -= 1
+        elif t[0] == 'x' and d != 0:
+            ext = False
+    return bal, ext, mx
+
+
+def strip_mod(ans):
+    return ' '.join(w.split('@')[0] for w in ans.split(' '))
+
+
+def spec_view(toks, go, spec):
+    """the observables the property names, as (go_view, spec_view) or None when the spec is silent"""
+    bal, ext, _ = depth_walk(toks)
+    if not bal or spec == 'undef':
+        return None
+    if not ext:
+        return strip_mod(go), strip_mod(spec)
+    return go, spec
+
+
+def vm_match(go, spec):
+    """spec token `E` = rejected with whatever code"""
+    g, s = go.split(' '), spec.split(' ')
+    if len(g) != len(s):
+        return False
+    for x, y in zip(g, s):
+        if y == 'E':
+            if not x.startswith('e'):
+                return False
+        elif x != y:
+            return False
+    return True
+
+
+def nontrivial(toks, go):
+    if 'b' not in toks:
+        return False
+    res = go.split(' ')[1:]
+    if len(res) != len(toks):
+        return True  # panic etc.
+    decl_ok = any(t[0] in 'dcx' and r == 'ok' for t, r in zip(toks, res))
+    obs = any(t[0] in 'gsm' and (r[0] == 'v' or r in ('e42', 'e44')) or r == 'e43' for t, r in zip(toks, res))
+    return decl_ok and obs
+
+
+def gen_history(rng, maxlen, names, ext=False, malformed=False, glob=()):
+    n = rng.randint(1, maxlen)
+    toks = []
+    d = 0
+    val = 0
+    allnames = list(names) + list(glob)
+    while len(toks) < n:
+        val += 1
+        k = rng.random()
+        nm = rng.choice(allnames)
+        if k < 0.14 and d < 6:
+            toks.append('b')
+            d += 1
+        elif k < 0.26:
+            if d > 0:
+                toks.append('e')
+                d -= 1
+            elif malformed and rng.random() < 0.5:
+                toks.append('e')
+            else:
+                continue
+        elif k < 0.44:
+            toks.append('d:%s:%d' % (nm, val))
+        elif k < 0.54:
+            toks.append('c:%s:%d' % (nm, val))
+        elif k < 0.60 and ext:
+            if d == 0 or malformed:
+                toks.append('x:%s:%d:%d' % (nm, val, rng.randint(1, 3)))
+            else:
+                continue
+        elif k < 0.76:
+            toks.append('s:%s:%d' % (nm, val))
+        elif k < 0.92 or not ext:
+            toks.append('g:' + nm)
+        else:
+            toks.append('m:' + nm)
+    # mostly close what is open
+    if not malformed and rng.random() < 0.7:
+        toks += ['e'] * d
+        for nm in names[:2]:
+            toks.append('g:' + nm)
+    return toks
+
+
+def contradicts(toks, g, s, vm):
+    """does the real code's answer contradict the spec on the observables the property names?"""
+    body = toks[1:] if vm else toks
+    if vm:
+        bal, ext, _ = depth_walk(body)
+        if s == 'undef' or not bal:
+            return False
+        gg, ss = (g, s) if ext else (strip_mod(g), strip_mod(s))
+        return not vm_match(gg, ss)
+    v = spec_view(body, g, s)
+    return v is not None and v[0] != v[1]
+
+
+def three_way(ctx, stream, op, cases, vm=False):
+    """cases: list of token lists. Runs Go, model, spec; files disagreements/violations."""
+    lines = [(op + ' ' + ' '.join(t)) if t else op for t in cases]
+    go = ctx.run_go(lines)
+    model = ctx.run_lean(lines)
+    spec = ctx.run_lean(['spec:' + ln for ln in lines])
+    bad_d = bad_v = 0
+    for toks, ln, g, m, s in zip(cases, lines, go, model, spec):
+        ctx.evaluations += 1
+        if g != m:
+            bad_d += 1
+            if bad_d <= 2:
+                ctx.disagreement(stream, *shrink(ctx, op, toks, vm, against_spec=False))
+            else:
+                ctx.disagreement(stream, ln, g, m)
+        if contradicts(toks, g, s, vm):
+            bad_v += 1
+            if bad_v <= 2:
+                ctx.violation(stream, *shrink(ctx, op, toks, vm, against_spec=True))
+            else:
+                ctx.violation(stream, ln, g, s)
+        body = toks[1:] if vm else toks
+        if nontrivial(body, g):
+            ctx.nontriv(ln)
+        for r in g.split(' ')[1:]:
+            if r in ('e42', 'e43', 'e44', 'nil'):
+                ctx.count(stream + ':' + r)
+        if g == 'panic':
+            ctx.count(stream + ':panic')
+    return lines, go, model, spec
+
+
+def shrink(ctx, op, toks, vm, against_spec):
+    """ddmin over the token list (the F/N head of a vmscope case is kept); returns (line, go, other)"""
+    from framework import ddmin
+    k = 1 if vm else 0
+    head, body = toks[:k], toks[k:]
+
+    def answers(full):
+        ln = op + ' ' + ' '.join(full)
+        g = ctx.run_go([ln], parallel=False)[0]
+        o = ctx.run_lean([('spec:' if against_spec else '') + ln], parallel=False)[0]
+        return ln, g, o
+
+    def failing(cand):
+        full = head + list(cand)
+        ln, g, o = answers(full)
+        return contradicts(full, g, o, vm) if against_spec else g != o
+
+    small = ddmin(body, failing) if len(body) > 1 else body
+    return answers(head + list(small))
 
 
 def run(ctx):
+    rng = ctx.rng
+    # ---- corpus: hand-written seeds, replayed first ---------------------------------------------
+    seeds = [
+        'b d:x:1 c:y:2 s:x:3 g:x s:y:9 e g:x',
+        'd:a:1 b d:a:2 g:a s:a:3 g:a e g:a',                  # shadow until end, outer untouched
+        'd:a:1 d:a:2 g:a b d:a:3 d:a:4 g:a e g:a',            # redeclare in the same block
+        'c:a:1 s:a:2 g:a b s:a:3 g:a d:a:4 s:a:5 g:a e g:a',  # constants
+        's:a:1 g:a b d:a:1 e s:a:2 g:a',                      # undeclared
+        'b b b d:a:1 e d:a:2 e d:a:3 g:a e g:a',
+        'x:f:1:2 m:f g:f s:f:2 b d:f:3 m:f e m:f',            # imports are constants with a module
+        'b x:a:1:3 e d:a:2 m:a',                              # stale externalRefs (outside the import-at-top assumption)
+        'e d:a:1 g:a b g:a e e g:a',                          # unmatched end
+    ]
+    cases = [s.split(' ') for s in seeds]
+    lines, go, model, spec = three_way(ctx, 'scope-seeds', 'scope', cases)
+    for i in (0, 1, 3, 7):
+        ctx.sample({'op': lines[i], 'go': go[i], 'model': model[i], 'spec': spec[i]})
+    ctx.streams.append({'stream': 'scope-seeds', 'cases': len(cases)})
+
+    # ---- exhaustive -------------------------------------------------------------------------------
+    L = 5 if (ctx.quick() and not getattr(ctx, 'escalated', False)) else 6
+    alpha = ['b', 'e'] + [k + ':' + n for n in NAMES2 for k in ('d', 'c', 's', 'g')]
+
+    def with_vals(t):
+        return [x + (':%d' % (i + 1) if x[0] in 'dcs' else '') for i, x in enumerate(t)]
+    cases = [with_vals(t) for t in itertools.product(alpha, repeat=L)]
+    lines, go, model, spec = three_way(ctx, 'scope-exhaustive', 'scope', cases)
+    ctx.count('exhaustive_histories_len_%d' % L, len(cases))
+    ctx.sample({'op': lines[len(lines) // 3], 'go': go[len(lines) // 3], 'spec': spec[len(lines) // 3]})
+    ctx.streams.append({'stream': 'scope-exhaustive', 'cases': len(cases), 'length': L, 'alphabet': len(alpha), 'exhaustive': True})
+    ctx.exhaustive = True
+
+    # ---- random -----------------------------------------------------------------------------------
+    maxlen = ctx.n(30, 200)
+    nrand = ctx.n(5000, 200000)
+    cases = []
+    for i in range(nrand):
+        names = ['a', 'b', 'c', 'd'][:rng.choice([3, 4])]
+        cases.append(gen_history(rng, maxlen if i % 4 else min(maxlen, 12), names, ext=(i % 3 == 0)))
+    lines, go, model, spec = three_way(ctx, 'scope-random', 'scope', cases)
+    for c in cases:
+        ctx.count('random_len_%s' % ('le10' if len(c) <= 10 else 'le30' if len(c) <= 30 else 'le100' if len(c) <= 100 else 'gt100'))
+        ctx.count('random_maxdepth_%d' % depth_walk(c)[2])
+    ctx.sample({'op': lines[1], 'go': go[1], 'model': model[1], 'spec': spec[1]})
+    ctx.streams.append({'stream': 'scope-random', 'cases': len(cases), 'maxlen': maxlen})
+
+    # ---- malformed --------------------------------------------------------------------------------
+    cases = [gen_history(rng, maxlen, ['a', 'b', 'c'], ext=True, malformed=True) for _ in range(ctx.n(1500, 40000))]
+    lines, go, model, spec = three_way(ctx, 'scope-malformed', 'scope', cases)
+    ctx.count('malformed_unbalanced', sum(1 for c in cases if not depth_walk(c)[0]))
+    ctx.count('malformed_import_in_block', sum(1 for c in cases if not depth_walk(c)[1]))
+    ctx.sample({'op': lines[0], 'go': go[0], 'model': model[0], 'spec': spec[0]})
+    ctx.streams.append({'stream': 'scope-malformed', 'cases': len(cases)})
+
+    # ---- through the VM wrappers --------------------------------------------------------------------
+    cases = []
+    for i in range(ctx.n(2500, 60000)):
+        mal = (i % 10 == 0)
+        body = gen_history(rng, maxlen, ['a', 'b'], ext=True, malformed=mal, glob=['G', 'H'])
+        cases.append(['N' if i % 25 == 0 else 'F'] + body)
+    lines, go, model, spec = three_way(ctx, 'vmscope', 'vmscope', cases, vm=True)
+    ctx.sample({'op': lines[1], 'go': go[1], 'model': model[1], 'spec': spec[1]})
+    ctx.streams.append({'stream': 'vmscope', 'cases': len(cases)})
+
+    run_program_stream(ctx)
+
+
+# ---- HOOK: program-level stream ---------------------------------------------------------------------
+# The evaluator-level half of C06 (probe programs through the `run` op: shadowing, recursion, exceptions, follow-up
+# statements that must answer 42 / 43 / 44, 输入/得到 constants, per-module depth after the run) plugs in here.
+def run_program_stream(ctx):
+    from props import progs
     g = progs.G(ctx.rng)
     n = ctx.n(2000, 50000)
     ps = [g.scope_program() for _ in range(n)]
     progs.run_stream(ctx, 'scope-prog', ps, nontrivial=lambda src, go: src.count('    令') >= 1)
-    try:
-        from props import c06_scope
-        c06_scope.run_scope_stream(ctx)
-    except ImportError:
-        pass
+
+
+def replay(ctx, data):
+    case = data['case']
+    if case.startswith('run '):
+        from props import progs
+        return progs.replay(ctx, data)
+    print('case :', case)
+    print('go   :', ctx.run_go([case])[0])
+    print('model:', ctx.run_lean([case])[0])
+    print('spec :', ctx.run_lean(['spec:' + case])[0])
